@@ -25,7 +25,7 @@ def main():
                 evidence_file='/verif/evidence/%s.json' % pid,
                 replay_cmd_template='./check replay {path}',
                 engine='contracts',
-                level_claimed=dict(category=info['level'], text=info['level_text'], design_ref=info.get('design_ref', 'DESIGN.md section 7, ' + pid)),
+                level_claimed=dict(category=info['level'], text=info['level_text'], design_ref=info.get('design_ref', 'DESIGN.md section 1 (as-built summary), section 7 ' + pid + ' (plan), section 12 (as built)')),
                 level_note=info['level_note'],
                 technique=info['technique']))
         else:
